@@ -109,7 +109,8 @@ def cases(tier, seed):
             seen.add(dig)
             out.append(dict(scenario=name, k=lab["k"], point=lab["point"], op=lab["op"], path=lab["path"],
                             torn=lab.get("bytes"), fsdigest=dig, committed=dig in committed,
-                            n_events=len(events)))
+                            n_events=len(events),
+                            double=(tier == "thorough" and name in ("all-s202", "all-s312"))))
     out.sort(key=lambda c: (c["k"], c["scenario"]))
     return out
 
@@ -201,12 +202,45 @@ def run(case):
         if again != ref:
             return bad("directory left by the resumed run loads different samples (%s, %s)" % (window, name),
                        finding_key="final-state-differs|%s|%s" % (strat, window))
+        second = 0
+        if case.get("double"):
+            # ---- second crash during the resumed run (strategy "all": every such state must be resumable, too)
+            import sys
+            okl = sys.modules["nifty.cl.minimization.optimize_kl"]
+            shutil.rmtree(odir, ignore_errors=True)
+            if fs:
+                fsfault.materialise(fs, odir)
+            rec = fsfault.Recorder(odir, module_patches=[(okl, "makedirs", "makedirs")] + (
+                [(okl, "replace", "replace")] if hasattr(okl, "replace") else []))
+            with rec:
+                _scenario_run(name, odir, resume=True)
+            seen2 = set()
+            for lab2, fs2 in fsfault.crash_states(rec.events, initial=fs):
+                dig2 = fsfault.fs_digest(fs2)
+                if dig2 in seen2:
+                    continue
+                seen2.add(dig2)
+                shutil.rmtree(odir, ignore_errors=True)
+                if fs2:
+                    fsfault.materialise(fs2, odir)
+                w2 = _window(dict(k=lab2["k"], point=lab2["point"]), rec.events) if lab2["point"] != "end" else "end"
+                try:
+                    got2 = _scenario_run(name, odir, resume=True)
+                except Exception as e:
+                    return bad("resume impossible after a second crash during the resumed run (first: %s, second: %s, %s): %s: %s"
+                               % (window, w2, name, type(e).__name__, str(e)[:150]),
+                               finding_key="double|resume-raises|%s|%s|%s" % (strat, w2, type(e).__name__))
+                if got2 != ref:
+                    return bad("result differs after a second crash during the resumed run (first: %s, second: %s, %s)" % (window, w2, name),
+                               finding_key="double|resume-differs|%s|%s" % (strat, w2))
+                second += 1
     finally:
         shutil.rmtree(tmp, ignore_errors=True)
     return ok(nontrivial=not case["committed"], outcome="resumed-ok|%s|%s" % (strat, window.split("(")[0].split(":")[0]),
-              stats=dict(states=1))
+              stats=dict(states=1 + second, second_level_states=second))
 
 
 def finish(run):
     shutil.rmtree(_workdir(), ignore_errors=True)
-    return dict(crash_states=run.evaluations, scenarios=scenarios(run.tier))
+    return dict(crash_states=run.evaluations, scenarios=scenarios(run.tier), states=int(run.extra.get("states", 0)),
+                second_level_crash_states=int(run.extra.get("second_level_states", 0)))
